@@ -62,6 +62,8 @@ def run(a):
         good &= expect_violation(ctx, mc, 'DirLock OpenLeaksLock')
         mc = dict(module='DirLock', name='ST_DirLock2', cfg=DIRLOCK_CFG.replace('Bug = {}', 'Bug = {"EarlyFailLeaksLock"}'), consts=dict(Openers='{"p1g0", "p2g0"}', MaxSteps=6))
         good &= expect_violation(ctx, mc, 'DirLock EarlyFailLeaksLock')
+        mc = dict(module='DirLock', name='ST_DirLock3', cfg=DIRLOCK_CFG.replace('Bug = {}', 'Bug = {"CloseUnlocksFirst"}'), consts=dict(Openers='{"p1g0", "p2g0"}', MaxSteps=8))
+        good &= expect_violation(ctx, mc, 'DirLock CloseUnlocksFirst')
 
         print('2. Tampering with an accepted real-engine trace: TLC must reject it')
         driver = vlib.build_driver(ctx)
